@@ -71,6 +71,13 @@ def solution_text(rng, n, db, rich=False):
     for e in chosen:
         lo, hi = (0.001, 0.05) if e in ("Fe", "Al", "Ba", "Si", "Sr") else (0.1, 30)
         vals[e] = rng.uniform(lo, hi) * scale
+    if rng.random() < 0.3:
+        # an ultra-trace element (1e-14 .. 1e-11 mol): exercises the zeroing thresholds of solution_check / xsolution_save
+        spare = [e for e in pool if e not in chosen and e not in ("Fe", "Al")]
+        if spare:
+            e = rng.choice(spare)
+            chosen.append(e)
+            vals[e] = rng.uniform(1e-11, 1e-8) * scale
     net = sum(z.get(e, 0) * v for e, v in vals.items() if e != "Cl")
     if charge_on == "Cl" and net <= 0:
         charge_on = None                      # Cl cannot balance an excess of anions
